@@ -84,6 +84,33 @@ Proof.
   - inversion H. subst. repeat split; reflexivity.
 Qed.
 
+(* relayItems.deleteTomb (the scheduled tombstone collection, label LGc) *)
+Lemma items_delete_tomb_spec : forall st t,
+  conns (items_delete_tomb st t) = conns st /\ gcs (items_delete_tomb st t) = gcs st /\
+  threads (items_delete_tomb st t) = threads st /\ cblog (items_delete_tomb st t) = cblog st /\
+  sent (items_delete_tomb st t) = sent st /\ seen (items_delete_tomb st t) = seen st /\
+  next_call (items_delete_tomb st t) = next_call st /\
+  match lookup key_eqb t (items st) with
+  | None => items_delete_tomb st t = st
+  | Some it => if it_tomb it then items (items_delete_tomb st t) = remove key_eqb t (items st)
+               else items_delete_tomb st t = st
+  end.
+Proof.
+  intros st t. unfold items_delete_tomb.
+  destruct (lookup key_eqb t (items st)) as [it|]; [|repeat split; reflexivity].
+  destruct (it_tomb it); [|repeat split; reflexivity].
+  destruct (timer_release_core (set_items st (remove key_eqb t (items st))) (it_tm it)) as (H1&H2&H3&H4&H5&H6&H7&H8).
+  cbn in *. repeat split; assumption.
+Qed.
+
+Lemma items_delete_tomb_items : forall st t,
+  items (items_delete_tomb st t) = items st \/ items (items_delete_tomb st t) = remove key_eqb t (items st).
+Proof.
+  intros st t. pose proof (items_delete_tomb_spec st t) as (_&_&_&_&_&_&_&H).
+  destruct (lookup key_eqb t (items st)) as [it|]; [|left; rewrite H; reflexivity].
+  destruct (it_tomb it); [right; exact H|left; rewrite H; reflexivity].
+Qed.
+
 (* relayItems.Entomb *)
 Lemma items_entomb_spec : forall cf st t st' g, items_entomb cf st t = (st', g) ->
   conns st' = conns st /\ threads st' = threads st /\ cblog st' = cblog st /\
